@@ -30,4 +30,4 @@ For each change i = 1..{n} write, under /tmp/mut-{pid}/out/<i>/ :
   - demo.py : a small self-contained program, run as `cd <checkout> && /venv/bin/python out/<i>/demo.py` or with the checkout path as argv[1], that exits 0 on the unmodified tree and exits non-zero (printing what went wrong) when patch.diff is applied — i.e. it demonstrates the property violation. It must build whatever content/config it needs in a temporary directory (clean up after itself) and must not depend on network access. Look at pygopherd/testutil.py and the tests for how to drive the server in-process.
   - notes.md : 5-10 lines: what the change is, why it breaks the property, and exactly what it needs in order to manifest.
 
-Verify for each change yourself: tests pass with the patch applied; demo.py fails with the patch and passes without it. Leave the worktree clean (no applied patch) when you finish. In your final answer, list for each change a one-line summary and the verification results.""")
+Verify for each change yourself: tests pass with the patch applied; demo.py fails with the patch and passes without it. Leave the worktree clean (no applied patch) when you finish. Do NOT use `git stash` (the stash is shared by all worktrees of the repository and other people work in sibling worktrees); use `git diff > file`, `git checkout -- .` and `git apply` instead. In your final answer, list for each change a one-line summary and the verification results.""")
